@@ -51,8 +51,12 @@ OBJ = [
     ("CREATE TABLE x9 (LIKE y9);\nALTER TABLE x9 ADD c int;\nCREATE TABLE z9 (w int);", dict()),
     # a second "input.regex" user with a different regex
     ("CREATE EXTERNAL TABLE r6 (x string) ROW FORMAT SERDE 'a.b.RegexSerDe' WITH SERDEPROPERTIES (\"input.regex\" = \"([0-9]+) (x|y)\") STORED AS TEXTFILE;", dict()),
+    # an object built with the documented debug flag (its own logging / parse path)
+    ("CREATE TABLE [d1] ([a] int NOT NULL, [b] varchar(3));\nCREATE INDEX i1 ON [d1] ([a]);", dict(debug=True, normalize_names=True)),
+    # a Hive table with an Athena-only clause: what the athena / hql modes report for it must not depend on which mode ran before
+    ("CREATE EXTERNAL TABLE e7 (x int) ROW FORMAT DELIMITED FIELDS TERMINATED BY ',' ESCAPED BY '\\\\' STORED AS TEXTFILE LOCATION 's3://a/b';", dict()),
 ]
-RUNARGS = [dict(), dict(output_mode="hql", group_by_type=True)]
+RUNARGS = [dict(), dict(output_mode="hql", group_by_type=True), dict(output_mode="athena")]
 
 # thread configurations: (object index, run-args index) per thread
 THREADS = {
@@ -63,6 +67,8 @@ THREADS = {
     "2thr_sametext": [(6, 0), (2, 0)],
     "2thr_like": [(8, 0), (1, 0)],
     "2thr_2regex": [(5, 0), (9, 0)],
+    "2thr_debug": [(10, 0), (1, 0)],
+    "2thr_modes": [(11, 1), (11, 2)],
     "2thr_samenames": [(7, 0), (0, 0)],
     "3thr": [(0, 0), (1, 1), (3, 0)],
     "2thr_fine": [(0, 0), (1, 0)],
@@ -81,7 +87,7 @@ def bounds(tier):
 
 # ---------------------------------------------------------------- (a) operation histories
 
-def histories(k, runs, objs):
+def histories(k, runs, objs, args=(0, 1)):
     out = []
 
     def rec(state, hist):
@@ -93,7 +99,7 @@ def histories(k, runs, objs):
                 rec(state[:j] + ((True, 0),) + state[j + 1:], hist + [["new", objs[j]]])
             elif nrun < runs:
                 ext = True
-                for ai in range(len(RUNARGS)):
+                for ai in args:
                     rec(state[:j] + ((True, nrun + 1),) + state[j + 1:], hist + [["run", objs[j], ai]])
         if not ext:
             out.append(hist)
@@ -104,8 +110,12 @@ def histories(k, runs, objs):
 
 def gen_cases(tier):
     cases = []
-    for objs in ([0, 1], [0, 2], [1, 3], [1, 4], [4, 1], [5, 1], [0, 5], [6, 2], [2, 6], [0, 7], [7, 0], [8, 1], [1, 8], [8, 0], [5, 9], [9, 5]):
+    for objs in ([0, 1], [0, 2], [1, 3], [1, 4], [4, 1], [5, 1], [0, 5], [6, 2], [2, 6], [0, 7], [7, 0], [8, 1], [1, 8], [8, 0], [5, 9], [9, 5], [10, 1], [1, 10], [10, 3]):
         for h in histories(2, 2, objs):
+            cases.append({"kind": "ops", "hist": h})
+    # output-mode histories (hql <-> athena) across objects
+    for objs in ([11, 1], [1, 11], [11, 5], [11, 3]):
+        for h in histories(2, 2, objs, args=(1, 2)):
             cases.append({"kind": "ops", "hist": h})
     for objs in ([0, 1, 2], [1, 4, 5]):
         for h in histories(3, 1, objs):
@@ -145,7 +155,7 @@ except Exception as e:
     out = [["ctor-exc", type(e).__name__]] * len(argsl)
 print("SOLO " + json.dumps(out))
 """
-SEQS = [(0,), (1,), (0, 0), (0, 1), (1, 0), (1, 1)]
+SEQS = [(a,) for a in range(3)] + [(a, b) for a in range(3) for b in range(3)]
 
 
 def _solo_proc(i, args_seq):
